@@ -3,9 +3,11 @@ import json
 import os
 import struct
 
-from checks import C19_util
-from vlib import flow, lean, stream
-from vlib.common import REPO, NPROC, log
+import shutil
+
+from checks import C19_util, C19_hard
+from vlib import flow, lean, repo, stream
+from vlib.common import REPO, NPROC, SCRATCH, log
 from vlib.common import run as sh
 
 MANIFEST = {
@@ -330,6 +332,98 @@ def obligation_search(ctx, hexe, dexe, consts):
     return found
 
 
+# ------------------------------------------------------------------------------------------------ tie (iii): ARPA files
+def arpa_tie(ctx, hexe):
+    """Probabilities / back-offs in ARPA files written by lmplz, filter and interpolate: every float token read with
+    FilePiece::ReadFloat equals strtof(token) bit for bit, and printing it again with util::ToString gives the token."""
+    ok, bdir, lg = repo.build("tools")
+    if not ok:
+        ctx.cov["arpa_tie"] = {"skipped": "tools do not build: " + lg[-300:]}
+        return False
+    bins = {n: os.path.join(bdir, "bin", n) for n in ("lmplz", "filter", "interpolate")}
+    wd = os.path.join(SCRATCH, "c19-arpa-%d" % os.getpid())
+    shutil.rmtree(wd, ignore_errors=True)
+    os.makedirs(wd)
+    rng = ctx.rng
+    found = False
+    rep = {"files": 0, "tokens": 0, "skipped": []}
+    try:
+        words = ["w%d" % i for i in range(rng.randrange(30, 120))]
+        weights = [1.0 / (i + 1) for i in range(len(words))]
+        files = []
+        bases = []
+        nsent = 400 if ctx.tier == "quick" else 6000
+        for k in range(2):
+            text = "\n".join(" ".join(rng.choices(words, weights)[0] for _ in range(rng.randrange(1, 12)))
+                             for _ in range(nsent)) + "\n"
+            base = os.path.join(wd, "m%d" % k)
+            arpa = os.path.join(wd, "lmplz%d.arpa" % k)
+            rc, o, e = sh([bins["lmplz"], "-o", "3", "-S", "40M", "--discount_fallback", "--intermediate", base,
+                           "--arpa", arpa], timeout=300, input=text.encode())
+            if rc != 0 or not os.path.exists(arpa):
+                rep["skipped"].append("lmplz rc=%s %s" % (rc, e[-200:]))
+                continue
+            files.append(("lmplz", arpa))
+            bases.append(base)
+        if files:
+            vocab = os.path.join(wd, "vocab.txt")
+            open(vocab, "w").write(" ".join(rng.sample(words, len(words) // 2)) + "\n")
+            out = os.path.join(wd, "filtered.arpa")
+            rc, o, e = sh([bins["filter"], "single", "model:" + files[0][1], out], timeout=300,
+                          input=open(vocab, "rb").read())
+            if rc == 0 and os.path.exists(out):
+                files.append(("filter", out))
+            else:
+                rep["skipped"].append("filter rc=%s %s" % (rc, e[-200:]))
+        if len(bases) == 2:
+            out = os.path.join(wd, "interp.arpa")
+            w = rng.choice([0.5, 0.3, 0.81])
+            rc, o, e = sh([bins["interpolate"], "-m", bases[0], bases[1], "-w", repr(w), repr(1 - w)], timeout=300, binary=True)
+            if rc == 0 and o:
+                open(out, "wb").write(o)
+                files.append(("interpolate", out))
+            else:
+                rep["skipped"].append("interpolate rc=%s" % rc)
+        for tool, path in files:
+            rc, o, e = sh([hexe, "arpa", path], timeout=600)
+            d, firsts = parse_summary(o.splitlines())
+            if rc != 0 or "tokens" not in d:
+                ctx.violation("harness died reading the ARPA written by %s (rc=%s): %s" % (tool, rc, e[-400:]),
+                              {"stream": "arpa", "tool": tool, "stderr": e[-2000:]})
+                found = True
+                continue
+            rep["files"] += 1
+            rep["tokens"] += d["tokens"]
+            rep[tool] = rep.get(tool, 0) + d["tokens"]
+            ctx.count(("arpa", tool, d["tokens"]), nontrivial=d["tokens"] > 10, n=d["tokens"])
+            ctx.hist("arpa.tool", tool)
+            if d.get("read_mismatches", 0) or d.get("reprint_mismatches", 0):
+                keep = os.path.join(ctx.replay_dir, "arpa_%s_%d.arpa" % (tool, ctx.seed))
+                os.makedirs(ctx.replay_dir, exist_ok=True)
+                shutil.copy(path, keep)
+                ctx.violation("ARPA written by %s: %d of %d float tokens are not read back identically by FilePiece::ReadFloat, "
+                              "%d do not re-print as themselves; %s" % (tool, d.get("read_mismatches", 0), d["tokens"],
+                                                                         d.get("reprint_mismatches", 0), firsts[:1]),
+                              {"stream": "arpa", "tool": tool, "file": keep, "summary": d, "first": firsts,
+                               "replay_cmd": "<harness c19> arpa %s" % keep})
+                found = True
+    finally:
+        shutil.rmtree(wd, ignore_errors=True)
+    ctx.cov["arpa_tie"] = rep
+    return found
+
+
+def corpus_ops(ctx):
+    """The committed hard-input corpus (checks/C19_hard.py): always first."""
+    fl = C19_hard.load(C19_hard.FLOATS)
+    db = C19_hard.load(C19_hard.DOUBLES)
+    for _, cls in fl:
+        for c in cls.split(","):
+            ctx.hist("corpus.f32.class", c)
+    ctx.cov["hard_corpus"] = {"floats": len(fl), "doubles": len(db)}
+    return ["f32 %d" % b for b, _ in fl], ["f64 %d" % b for b, _ in db]
+
+
 def stratified(rng, total_bits, slices, width):
     """`slices` aligned sub-ranges of `width` values spread over [0, 2^total_bits): one random offset per stratum."""
     out = []
@@ -373,6 +467,14 @@ def run_inner(ctx):
     # 1. the length obligation evaluated on the model, replayed on the real code when it is exceeded
     found |= obligation_search(ctx, hexe, dexe, consts)
 
+    # 0. the committed corpus of hard inputs (double-rounding sensitive, near-midpoint, ties, bignum fallback, 9 digits)
+    hard32, hard64 = corpus_ops(ctx)
+    if hard32:
+        found |= run_lines(ctx, hexe, dexe, hard32, "hard-float")
+    if hard64:
+        found |= run_lines(ctx, hexe if quick else fexe, dexe, hard64 if not quick else
+                           [hard64[i] for i in sorted(rng.sample(range(len(hard64)), min(len(hard64), 2500)))], "hard-double")
+
     # 2. model fidelity + property oracle, value by value
     f32 = gen_f32(rng, 3000 if quick else 200000)
     f64 = gen_f64(rng, 3000 if quick else 200000)
@@ -384,6 +486,9 @@ def run_inner(ctx):
                        nontrivial=lambda op, m: len(op.split()[1]) > 1)
     found |= run_lines(ctx, hexe, dexe, gen_reader(rng, 1500 if quick else 60000), "reader",
                        nontrivial=lambda op, m: " | err" not in m)
+
+    # 2b. tie (iii): ARPA files written by the tools
+    found |= arpa_tie(ctx, hexe)
 
     # 3. enumeration on the real code (evidence about the code, not a theorem)
     thr = min(16, NPROC)
@@ -397,6 +502,20 @@ def run_inner(ctx):
         found |= run_exhaustive(ctx, fexe, "exh-u32", [(0, 1 << 32)], "uint32-all", thr)
         found |= run_exhaustive(ctx, fexe, "exh-i32", [(0, 1 << 32)], "int32-all", thr)
         found |= run_exhaustive(ctx, fexe, "exh-halves", [(0, 100000000)], "uint64-sse-halves-all", thr)
+        # is the committed hard-input corpus still what the classifier produces on this tree?  (it depends on libc and
+        # on double-conversion's digit generator only; a stale corpus is a note in the evidence, not a kenlm defect —
+        # the sweep above is the complete check in this tier)
+        try:
+            sel, totals = C19_hard.classify_floats(fexe, thr)
+            have = {b for b, _ in C19_hard.load(C19_hard.FLOATS)}
+            must = {int(l.split()[0]) for l in sel if set(l.split()[1].split(",")) & {"dr", "mid"}}
+            ctx.cov["hard_corpus"]["reclassified"] = {"totals": totals.lstrip("# "), "dr_mid": len(must),
+                                                      "missing_from_corpus": sorted(must - have)[:20]}
+            if must - have:
+                log("  [C19] NOTE: corpus/C19_hard_floats.txt is stale (%d dr/mid floats missing); regenerate with "
+                    "`python3 -m checks.C19_hard`" % len(must - have))
+        except Exception as ex:   # noqa: BLE001
+            ctx.cov["hard_corpus"]["reclassified"] = {"error": str(ex)[:300]}
 
     ctx.cov["rule"] = ("float/double: bit patterns from every exponent x boundary mantissas, powers of ten +-ulps, every "
                        "(digit count, point) class around the decimal/exponential thresholds, specials, random bits; a case is "
